@@ -143,7 +143,11 @@ func (r *Registry) fromStruct(m *schema.Message, rv reflect.Value) val.Val {
 	}
 	var unrec []byte
 	if m.Capture {
-		unrec = append([]byte(nil), rv.FieldByName("XXX_unrecognized").Bytes()...)
+		if f := rv.FieldByName("XXX_unrecognized"); f.IsValid() {
+			unrec = append([]byte(nil), f.Bytes()...)
+		} else {
+			ShapeMismatches++ // the schema says the message captures unknown fields, the generated type cannot
+		}
 	}
 	return val.MsgOf(slots, unrec)
 }
@@ -260,7 +264,11 @@ func (r *Registry) toStruct(m *schema.Message, v val.Val, rv reflect.Value) {
 		idx++
 	}
 	if m.Capture && len(v.B) > 0 {
-		rv.FieldByName("XXX_unrecognized").SetBytes(append([]byte(nil), v.B...))
+		if f := rv.FieldByName("XXX_unrecognized"); f.IsValid() {
+			f.SetBytes(append([]byte(nil), v.B...))
+		} else {
+			ShapeMismatches++
+		}
 	}
 }
 
